@@ -684,7 +684,9 @@ def cli_scope(res, pid, rng, tier):
             files_in[os.path.join("site1", "pop", "r2.cfg")] = "".join("ntp server %s\n" % ipaddress.IPv4Address(a_) for a_ in sub_addrs[:3])
             files_in[os.path.join("site2", "r3.cfg")] = "".join("logging host %s\n" % ipaddress.IPv4Address(a_) for a_ in sub_addrs[3:])
         if pid == "C17" and r % 2 == 1:
-            files_in["blob.bin"] = "\udcff\udcfe binary"       # written as undecodable bytes: this file fails, the map must still be complete
+            # written as undecodable bytes: this file fails, the map must still be complete (and if the file is processed after all,
+            # its address belongs in the map like any other)
+            files_in["blob.bin"] = "\udcff\udcfe binary\nip host 11.22.33.44\n"
         stale_dump_used = stale
         status, outs, dumptext = run_cli(argv, files_in, want_dump=(pid in ("C17", "C03")), stale_dump=stale)
         if pid in ("C17", "C03") and dumptext:
@@ -771,6 +773,10 @@ def cli_scope(res, pid, rng, tier):
                 if m.get(canon) != tok:
                     fails.append(dict(meta, kind="replaced address missing from the dump file or listed with another image",
                                       address=canon, used=tok, listed=m.get(canon)))
+            bl = [l_ for l_ in outs.get("blob.bin", "").split("\n") if l_.startswith("ip host ")]
+            if pid == "C17" and bl and bl[0].split(" ")[-1] != "11.22.33.44" and m.get("11.22.33.44") != bl[0].split(" ")[-1]:
+                fails.append(dict(meta, kind="replaced address missing from the dump file or listed with another image", file="blob.bin (not valid UTF-8)",
+                                  address="11.22.33.44", used=bl[0].split(" ")[-1], listed=m.get("11.22.33.44")))
             for rel_, addrs_ in ((os.path.join("site1", "pop", "r2.cfg"), sub_addrs[:3]), (os.path.join("site2", "r3.cfg"), sub_addrs[3:])):
                 if pid != "C17" or not addrs_:
                     continue
@@ -1032,7 +1038,7 @@ def dir_history_scope(res, pid, rng, tier):
             outs = {}
             for r_, _, fs in os.walk(outd):
                 for f in fs:
-                    outs[os.path.relpath(os.path.join(r_, f), outd)] = open(os.path.join(r_, f)).read()
+                    outs[os.path.relpath(os.path.join(r_, f), outd)] = open(os.path.join(r_, f), encoding="utf-8", errors="surrogateescape").read()
             res.evaluations += 3
             res.nt(("dirhist", salt))
             good = [k for k in ("a.cfg", os.path.join("m", "z", "c.cfg"), "zz.cfg") if k in outs]
